@@ -263,11 +263,34 @@ struct Baseline {
 fn run_history(t: &Tables, base: &Baseline, hist: &[Ev], selectors: bool) -> (BTreeSet<Mis>, u64) {
     let mut e = fresh(false);
     let mut em = fresh(true);
+    // a third machine is read like a game loop polls: the half-rows an event is about to change are
+    // read right before the event and again right after it, with no other read in between
+    let mut ep = fresh(false);
+    let mut poll_mis: BTreeSet<Mis> = BTreeSet::new();
     let mut r = RefMatrix::default();
     for ev in hist {
+        let rows_before = r.rows(t);
+        let mut r2 = r.clone();
+        r2.apply(ev);
+        let rows_after = r2.rows(t);
+        let affected: Vec<usize> = (0..8).filter(|k| rows_before[*k] != rows_after[*k]).collect();
+        for row in affected.iter() {
+            let _ = rig::cpu_in(&mut ep, CODE, ((!(1u16 << row) & 0xFF) << 8) | 0xFE);
+        }
         apply(t, &mut e, ev);
         apply(t, &mut em, ev);
+        apply(t, &mut ep, ev);
         r.apply(ev);
+        for row in affected.iter().rev() {
+            let got = rig::cpu_in(&mut ep, CODE, ((!(1u16 << row) & 0xFF) << 8) | 0xFE) & 0x1F;
+            for bit in 0..5 {
+                let eh = rows_after[*row] & (1 << bit) == 0;
+                let gh = got & (1 << bit) == 0;
+                if eh != gh {
+                    poll_mis.insert(Mis::Row(*row, bit, eh));
+                }
+            }
+        }
     }
     let mut o = observe(&mut e);
     let om = observe(&mut em);
@@ -279,7 +302,7 @@ fn run_history(t: &Tables, base: &Baseline, hist: &[Ev], selectors: bool) -> (BT
     o.mx = om.mx;
     o.my = om.my;
     let exp = r.rows(t);
-    let mut m = BTreeSet::new();
+    let mut m = poll_mis;
     for row in 0..8 {
         for bit in 0..5 {
             let eh = exp[row] & (1 << bit) == 0;
